@@ -226,6 +226,37 @@ pub fn large_model(c: &LargeCase) -> SerCase {
     SerCase { spec, texts, trailing: vec![9, 8, 7] }
 }
 
+/// Lengths on both sides of the boundaries of the variable-length integer encoding (250 | 251,
+/// 65,535 | 65,536): weight vectors (a dictionary word of n characters has n + 1 weights; an
+/// n-gram in window W has 2W - n + 1), strings, tag lists.
+pub fn varint_cases() -> Vec<SerCase> {
+    use vcommon::mirror::{NgramSpec, TagModelSpec, TagNgramSpec, TagWeightSpec, WordSpec};
+    let ch = |i: usize| char::from_u32(0x4E00 + (i % 300) as u32).unwrap();
+    let mut out = vec![];
+    for (k, n) in [248usize, 249, 250, 251, 252, 300, 16_383, 16_384, 32_767].into_iter().enumerate() {
+        let word: String = (0..n).map(|i| ch(i * 7 + i / 9 + k)).collect();
+        let mut spec = ModelSpec { char_window: 2, type_window: 1, bias: -3, ..ModelSpec::default() };
+        spec.dict.push(WordSpec { word: word.clone(), weights: (0..=n).map(|i| ((i * 31 + k) % 201) as i32 - 100).collect(), comment: String::new() });
+        spec.char_ngrams.push(NgramSpec { ngram: [ch(1), ch(2)].iter().collect(), weights: vec![4, -3, 2] });
+        spec.tag_models.push(TagModelSpec {
+            token: [ch(5)].iter().collect(),
+            tags: vec![(0..n.min(300)).map(|j| format!("t{j}")).collect(), vec!["only".into()]],
+            char_ngrams: vec![TagNgramSpec { ngram: [ch(6)].iter().collect(), weights: vec![TagWeightSpec { rel_position: 1, weights: (0..n.min(300)).map(|j| (j % 7) as i32 - 3).collect() }] }],
+            type_ngrams: vec![],
+            bias: (0..n.min(300)).map(|j| (j % 5) as i32).collect(),
+        });
+        out.push(SerCase { spec, texts: vec![format!("{}{}{}", ch(5), word, ch(6)), [ch(5), ch(6), ch(1), ch(2)].iter().collect()], trailing: vec![1, 0xfb, 0xfc] });
+    }
+    // windows whose weight vectors cross 250 / 251 entries: 2W - n + 1 with n = 1
+    for w in [124u8, 125, 126, 127, 255] {
+        let mut spec = ModelSpec { char_window: w, type_window: w, bias: 2, ..ModelSpec::default() };
+        spec.char_ngrams.push(NgramSpec { ngram: "a".into(), weights: (0..2 * w as usize).map(|i| (i % 9) as i32 - 4).collect() });
+        spec.type_ngrams.push(NgramSpec { ngram: vec![2, 2], weights: (0..2 * w as usize - 1).map(|i| (i % 5) as i32 - 2).collect() });
+        out.push(SerCase { spec, texts: vec!["abaab".into(), "a".repeat(300)], trailing: vec![0xfb] });
+    }
+    out
+}
+
 pub fn case_strategy() -> impl Strategy<Value = SerCase> {
     (
         prop_oneof![
@@ -255,12 +286,25 @@ tag-model token",
             LargeCase { n_tag_models: 200, n_char_ngrams: 70000, n_words: 250, n_long_words: 0, long_text: 0 },
             // serialised size above 2^24, 2^25 bytes (thorough: above 2^28)
             LargeCase { n_tag_models: 20, n_char_ngrams: 300, n_words: 10, n_long_words: rep.n(400_000, 3_000_000) as usize, long_text: 0 },
+            // table sizes that are exact powers of two (block-wise readers / writers)
+            LargeCase { n_tag_models: 4096, n_char_ngrams: 4096, n_words: 4096, n_long_words: 0, long_text: 0 },
+            LargeCase { n_tag_models: 0, n_char_ngrams: 8192, n_words: 8192, n_long_words: 0, long_text: 0 },
+            LargeCase { n_tag_models: 1, n_char_ngrams: 65536, n_words: 0, n_long_words: 0, long_text: 0 },
             // texts above 65,535 characters through the reloaded predictor
             LargeCase { n_tag_models: 20, n_char_ngrams: 300, n_words: 10, n_long_words: 0, long_text: 70_000 },
             LargeCase { n_tag_models: 20, n_char_ngrams: 300, n_words: 10, n_long_words: 0, long_text: 65_536 },
         ]
         .into_iter(),
         |c: &LargeCase| test_case(&large_model(c)).map(|mut i| { i.nontrivial = true; i }),
+    );
+    rep.run_enum(
+        "varint-boundaries",
+        "models whose weight vectors, strings and tag lists have 248 .. 252, 300, 16,383, 16,384 \
+and 32,767 entries (both sides of the boundaries of the variable-length integer encoding) and \
+windows 124 .. 127, 255: same oracle",
+        false,
+        varint_cases().into_iter(),
+        |c: &SerCase| test_case(c).map(|mut i| { i.nontrivial = true; i }),
     );
     let n = rep.n(12000, 600000);
     rep.run_prop(
